@@ -7,6 +7,7 @@ import random
 import vf
 
 MAXLEN = 8
+OTHER_AF = ["list", "star", "identity", "q0"]
 PER_EXEC = 25
 
 
@@ -50,7 +51,7 @@ def big_requests(rng, L):
         hs.append({"mal": "", "specs": specs, "ows": False})
     for m in ("absent", "empty", "alpha", "nounit"):
         hs.append({"mal": m, "specs": [], "ows": False})
-    return [(h, acc) for h in hs for acc in (False, True)]
+    return [(h, af) for h in hs for af in ("none", "gzip", rng.choice(OTHER_AF))]
 
 
 def run(ctx):
@@ -59,15 +60,16 @@ def run(ctx):
     # 1. the definition itself: sanity properties over every content length / request / near-miss answer
     mc = ctx.instance("MC_HttpRange", "HttpRange", "HttpRange_mc.cfg",
                       {"MaxLen": 4 if ctx.thorough else 2, "Grid": [5, 4, 2] if ctx.thorough else [3, 2, -1],
-                       "MaxOps": 1})
+                       "GenAcc": {"none", "gzip", "q0", "star"}, "MaxOps": 1})
     ctx.model_check(mc, workers=4)
     # 2. TLC enumerates the requests: every single range over 0..MaxLen+2 (+ malformed classes),
     #    every pair over a smaller grid, every triple over a tiny grid
     gen_cfg = "SPECIFICATION GenSpec\nINVARIANT Emit\nCHECK_DEADLOCK FALSE"
 
     inst = ctx.instance("G1_HttpRange", "HttpRange", gen_cfg,
-                        {"MaxLen": 0, "Grid": [MAXLEN + 2, 6, 2] if ctx.thorough else [MAXLEN + 2, 4, 1], "MaxOps": 1})
-    reqs = [(h[0]["h"], h[0]["acc"]) for h in ctx.generate(inst, workers=4)]
+                        {"MaxLen": 0, "Grid": [MAXLEN + 2, 6, 2] if ctx.thorough else [MAXLEN + 2, 4, 1],
+                         "GenAcc": {"none", "gzip"}, "MaxOps": 1})
+    reqs = [(h[0]["h"], h[0]["af"]) for h in ctx.generate(inst, workers=4)]
     singles = [r for r in reqs if len(r[0]["specs"]) <= 1]
     pairs = [r for r in reqs if len(r[0]["specs"]) == 2]
     triples = [r for r in reqs if len(r[0]["specs"]) == 3]
@@ -98,7 +100,9 @@ def run(ctx):
             tt = rng.sample(tt, min(len(tt), 150))
         reqs += pp + tt
         hi = (L + 2) if not gz else rng.choice([L + 2, 30])
-        reqs += [(rand_header(rng, hi), rng.random() < 0.5) for _ in range(400 if ctx.thorough else 60)]
+        reqs += [(rand_header(rng, hi), rng.choice(["none", "gzip"])) for _ in range(400 if ctx.thorough else 60)]
+        # the other Accept-Encoding forms (list, *, identity, gzip;q=0): a seeded sample of the same requests
+        reqs += [(h, rng.choice(OTHER_AF)) for h, _ in rng.sample(reqs, min(len(reqs), 1500 if ctx.thorough else 150))]
         pack((c, gz, via), reqs)
     text = ("the quick brown fox jumps over the lazy dog %d\n" * 30) % tuple(range(30))
     bigs = [([ord(x) for x in text], True, "op"),
@@ -115,8 +119,8 @@ def run(ctx):
         with open(script, "w") as f:
             for (c, gz, via), reqs in execs:
                 f.write(json.dumps({"ev": "reset", "content": c, "gz": gz, "via": via}) + "\n")
-                for h, acc in reqs:
-                    f.write(json.dumps({"ev": "get", "h": h, "acc": acc}) + "\n")
+                for h, af in reqs:
+                    f.write(json.dumps({"ev": "get", "h": h, "af": af}) + "\n")
     binp = ctx.build("c32")
     trace = ctx.drive(binp, ["--script", script])
 
@@ -129,7 +133,7 @@ def run(ctx):
                 return m
         return None
 
-    ctx.judge("HttpRangeTrace", trace, "trace_base.cfg", {"MaxLen": 0, "Grid": [-1], "MaxOps": 0},
+    ctx.judge("HttpRangeTrace", trace, "trace_base.cfg", {"MaxLen": 0, "Grid": [-1], "GenAcc": vf.Raw("{}"), "MaxOps": 0},
               nontrivial=lambda e: any('"st":206' in x for x in e), mutate=mutate)
 
     def mutate2(evs):
@@ -143,12 +147,12 @@ def run(ctx):
                 return m
         return None
 
-    ctx._selftest("HttpRangeTrace", vf.split_execs(trace)[:50],
-                  "trace_base.cfg", {"MaxLen": 0, "Grid": [-1], "MaxOps": 0},
+    ctx._selftest("HttpRangeTrace", vf.split_execs(trace),
+                  "trace_base.cfg", {"MaxLen": 0, "Grid": [-1], "GenAcc": vf.Raw("{}"), "MaxOps": 0},
                   set(ctx.kf_open.keys()), 600, False, mutate2)
     ctx.rule = ("requests = TLC-enumerated Range values (every single a-b / a- / -n over 0..%d, %d malformed classes, "
                 "every pair over a smaller grid, every triple over a tiny grid) + seeded random 2..5-range headers, "
-                "each with and without Accept-Encoding: gzip, against blobs of every length 0..%d stored plain and "
+                "each without Accept-Encoding and with gzip (a seeded sample also with a list, *, identity, gzip;q=0), against blobs of every length 0..%d stored plain and "
                 "gzip-compressed (PUT with Content-Encoding and operation.UploadData) and 4 larger blobs; one execution = "
                 "one blob x <= %d requests; non-trivial = contains a 206 answer; distinct by hash of the recorded "
                 "execution" % (MAXLEN + 2, 10, MAXLEN, PER_EXEC))
